@@ -6,6 +6,13 @@ VERIF = os.path.dirname(os.path.dirname(os.path.abspath(__file__)))
 
 # id -> (category, technique, text, note)
 CLAIMS = {
+    'C17': ('other',
+            'static analysis: static expansion of the 539-row opcode table into trie cells compared with an independent control-transfer reference; def-use templates of the flow accessors',
+            'Every cell of the decode trie (derived statically from the addop rows) carries exactly the breakflow/splitflow/dstflow attributes of its '
+            'architectural class (ref/ia32_flow.ref; all unlisted opcodes must carry none); relative displacements are signed kinds sized by the operand size; '
+            'getnextflow/getdstflow/breakflow/splitflow/dstflow and the decoder\'s offset/length stores match their def-use templates.',
+            'Not decided: numeric extraction of a concrete displacement (struct.unpack at run time). Trusted: the table-expansion model (validated cell-for-cell '
+            'against the real trie at authoring time: 6769 cells, 0 differences) and ref/ia32_flow.ref.'),
     'C13': ('other',
             'static analysis: field-coverage of the ordering key vs __eq__, statement-order rule in the simplifier, lint for set iteration / id() / hash() ordering',
             'Decides the structural preconditions of canonicity: key_expr has a distinctly tagged branch for every IR node class and reads every '
